@@ -1,8 +1,7 @@
-(* SetShapeOrder (NifFile.cpp:241-278): the same theorems as for PrettySortBlocks under the
-   hypotheses the proofs force - the root is block 0 (the counter is seeded with the root's id) and
-   the resolved names are a permutation of the root's shape children (or differ in number) - and
-   what happens outside them: with a root that is not block 0 the order is never a permutation and
-   SetBlockOrder stores outside its vectors; with a duplicate name a child is listed twice. *)
+(* SetShapeOrder (NifFile.cpp:241-276): the same theorems as for PrettySortBlocks, for every graph and
+   every name list. The counter starts at 0 wherever the root node sits, and SortGraph applies the
+   resolved order only when it is a permutation of the root's shape children, so neither a root in a
+   block other than 0 nor duplicate / unresolved names can break the numbering or a child array. *)
 From NiflyVerif Require Import Res CompactProofs GraphModel GraphInv GraphDelete GraphAdd GraphOrder
   SorterModel SorterInv SorterChildren SorterSort.
 From Coq Require Import ZifyBool ZifyNat ZifyN Permutation.
@@ -11,149 +10,68 @@ Local Open Scope N_scope.
 Lemma shape_order_unfold fuel ob names g r :
   root_node g = Some r ->
   shape_order_indices fuel ob names g =
-  bind (sort_run ob (shape_ids g names) fuel (CSet r) (init_state g r)) (leftover (length g)).
+  bind (sort_run ob (shape_ids g names) fuel (CSet r) (init_state g 0)) (leftover (length g)).
 Proof. intros H. unfold shape_order_indices. rewrite H. reflexivity. Qed.
 
-(* the numbering invariant with the counter seeded by the root id *)
-Lemma shape_order_sinv fuel ob names g st base :
-  base + vlen g < 4294967296 ->
-  (root_node g = Some base \/ (root_node g = None /\ base = 0)) ->
-  shape_order_indices fuel ob names g = Ok st -> SInv (vlen g) base st /\ complete (vlen g) st.
+Lemma shape_order_sinv fuel ob names g st :
+  vlen g < NPOS -> shape_order_indices fuel ob names g = Ok st -> SInv (vlen g) 0 st /\ complete (vlen g) st.
 Proof.
-  intros Hs Hroot H.
-  assert (E : exists s1, SInv (vlen g) base s1 /\ leftover (length g) s1 = Ok st).
-  { destruct Hroot as [Hr|(Hr & ->)].
-    - rewrite (shape_order_unfold _ _ _ _ _ Hr) in H.
-      destruct (sort_run ob _ fuel (CSet base) (init_state g base)) as [s1| |] eqn:E; cbn [bind] in H; try discriminate.
+  intros Hn H. pose proof NPOS_lt. assert (Hs : 0 + vlen g < 4294967296) by lia.
+  assert (E : exists s1, SInv (vlen g) 0 s1 /\ leftover (length g) s1 = Ok st).
+  { unfold shape_order_indices in H. destruct (root_node g) as [r|].
+    - unfold seq2 in H.
+      destruct (sort_run ob _ fuel (CSet r) (init_state g 0)) as [s1| |] eqn:E; cbn [bind] in H; try discriminate.
       exists s1. split; [|exact H]. eapply run_sinv; [exact Hs|exact E|apply init_inv].
-    - unfold shape_order_indices in H. rewrite Hr in H. exists (init_state g 0). split; [apply init_inv|exact H]. }
+    - exists (init_state g 0). split; [apply init_inv|exact H]. }
   destruct E as (s1 & H1 & H2).
   replace (length g) with (N.to_nat (vlen g)) in H2 by (unfold vlen; lia).
   exact (leftover_complete _ _ _ _ Hs H2 H1).
 Qed.
 
+(* the order handed to SetBlockOrder is a permutation, wherever the root node is *)
 Theorem shape_order_perm fuel ob names g st :
-  vlen g < NPOS -> (root_node g = Some 0 \/ root_node g = None) ->
-  shape_order_indices fuel ob names g = Ok st -> is_perm (st_nidx st) (vlen g).
+  vlen g < NPOS -> shape_order_indices fuel ob names g = Ok st -> is_perm (st_nidx st) (vlen g).
 Proof.
-  intros Hn Hroot H. pose proof NPOS_lt.
-  destruct (shape_order_sinv fuel ob names g st 0) as (HI & Hc); [lia| |exact H|apply complete_perm; assumption].
-  destruct Hroot; auto.
+  intros Hn H. destruct (shape_order_sinv fuel ob names g st Hn H) as (HI & Hc). apply complete_perm; assumption.
 Qed.
 
+(* every name list (duplicates, unresolved names, any count) leaves every child array with the same
+   set of children, none more often than before *)
 Theorem shape_order_children fuel ob names g st :
   refs_in_range g -> node_shape_excl g ->
-  (forall b0, vget g 0 = Some b0 -> order_ok (shape_ids g names) g true (s_children b0)) ->
   shape_order_indices fuel ob names g = Ok st -> grel g (st_gr st).
 Proof.
-  intros Hr He Hord H. unfold shape_order_indices in H.
+  intros Hr He H. unfold shape_order_indices in H.
   assert (HA : forall i, preserves (fun s => grel g (st_gr s)) (assign i)).
   { intros i s s' Ha HG. rewrite (assign_gr _ _ _ Ha). exact HG. }
   destruct (root_node g) as [r|].
   - unfold seq2 in H.
-    destruct (sort_run ob _ fuel (CSet r) (init_state g r)) as [s1| |] eqn:E; cbn [bind] in H; try discriminate.
+    destruct (sort_run ob _ fuel (CSet r) (init_state g 0)) as [s1| |] eqn:E; cbn [bind] in H; try discriminate.
     eapply (leftover_preserves (fun s => grel g (st_gr s))); [exact HA|exact H|].
     eapply run_children; eauto. apply grel_refl.
   - eapply (leftover_preserves (fun s => grel g (st_gr s))); [exact HA|exact H|apply grel_refl].
 Qed.
 
-(* the root (block 0) keeps index 0 *)
-Theorem shape_order_root_first fuel ob names g st :
-  vlen g < NPOS -> root_node g = Some 0 -> kind_at g 0 K_COLL = false ->
-  shape_order_indices fuel ob names g = Ok st -> vget (st_nidx st) 0 = Some 0.
+(* the root node (GetRootNode: the first node in block order) gets index 0 *)
+Theorem shape_order_root_first fuel ob names g st r :
+  vlen g < NPOS -> root_node g = Some r -> kind_at g r K_COLL = false ->
+  shape_order_indices fuel ob names g = Ok st -> vget (st_nidx st) r = Some 0.
 Proof.
   intros Hn Hr Hc H. rewrite (shape_order_unfold _ _ _ _ _ Hr) in H.
-  destruct (sort_run ob _ fuel (CSet 0) (init_state g 0)) as [s1| |] eqn:E; cbn [bind] in H; try discriminate.
-  assert (Hb : exists b, getb g 0 = Some b).
+  destruct (sort_run ob _ fuel (CSet r) (init_state g 0)) as [s1| |] eqn:E; cbn [bind] in H; try discriminate.
+  assert (Hb : exists b, getb g r = Some b).
   { unfold root_node in Hr. destruct (indices_where (has_kind K_NODE) 0 g) as [|i l] eqn:Ei; [discriminate|].
-    inversion Hr; subst i. assert (Hin : In 0 (indices_where (has_kind K_NODE) 0 g)) by (rewrite Ei; left; reflexivity).
-    apply indices_where_spec in Hin. apply getb_in_range; [discriminate|lia]. }
+    inversion Hr; subst i. assert (Hin : In r (indices_where (has_kind K_NODE) 0 g)) by (rewrite Ei; left; reflexivity).
+    apply indices_where_spec in Hin. apply getb_in_range; lia. }
   destruct Hb as (b & Hb).
-  assert (H1 : root_at 0 s1).
+  assert (H1 : root_at r s1).
   { eapply cset_root; eauto. unfold kind_at in Hc. rewrite Hb in Hc. exact Hc. }
-  assert (H2 : root_at 0 st).
-  { eapply (leftover_preserves (root_at 0)); [apply root_at_assign|exact H|exact H1]. }
+  assert (H2 : root_at r st).
+  { eapply (leftover_preserves (root_at r)); [apply root_at_assign|exact H|exact H1]. }
   apply H2.
 Qed.
 
-(* ---- SetBlockOrder with an order that is not a permutation: a store outside the vector ---- *)
-Lemma scatter_fault {A} (order : list N) (src : list A) n :
-  vlen order = n -> vlen src = n ->
-  forall fuel i dst, vlen dst = n -> (N.to_nat (n - i) < fuel)%nat ->
-  (exists k o, i <= k < n /\ vget order k = Some o /\ n <= o) ->
-  scatter fuel n order src dst i = Fault.
-Proof.
-  intros Ho Hs. induction fuel as [|f IH]; intros i dst Hd Hf (k & o & Hk & Hok & Hbig); [lia|].
-  cbn [scatter]. destruct (N.ltb_spec i n) as [Hi|Hi]; [|lia].
-  destruct (vget_lt order i ltac:(lia)) as (oi & Hoi). destruct (vget_lt src i ltac:(lia)) as (x & Hx).
-  rewrite Hoi, Hx.
-  destruct (vset dst oi (Some x)) as [dst'|] eqn:Ev; [|reflexivity].
-  apply IH.
-  - unfold vlen in *. rewrite (vset_len _ _ _ _ Ev). exact Hd.
-  - lia.
-  - exists k, o. split; [|auto]. apply vset_some_lt in Ev.
-    assert (k <> i) by (intros ->; assert (o = oi) by congruence; lia). lia.
-Qed.
-
-Lemma rebuild_at_len ob rso i st : vlen (st_gr (rebuild_at ob rso i st)) = vlen (st_gr st).
-Proof.
-  unfold rebuild_at, set_children. destruct (getb (st_gr st) i); [|reflexivity].
-  destruct (vset (st_gr st) i _) as [g'|] eqn:E; [|reflexivity]. cbn. unfold vlen. rewrite (vset_len _ _ _ _ E). reflexivity.
-Qed.
-
-Lemma shape_order_len fuel ob names g st : shape_order_indices fuel ob names g = Ok st -> vlen (st_gr st) = vlen g.
-Proof.
-  intros H. unfold shape_order_indices in H.
-  assert (HA : forall i, preserves (fun s => vlen (st_gr s) = vlen g) (assign i)).
-  { intros i s s' Ha HG. rewrite (assign_gr _ _ _ Ha). exact HG. }
-  assert (HR : forall rso i s, vlen (st_gr s) = vlen g -> vlen (st_gr (rebuild_at ob rso i s)) = vlen g).
-  { intros rso i s Hl. rewrite rebuild_at_len. exact Hl. }
-  destruct (root_node g) as [r|].
-  - unfold seq2 in H.
-    destruct (sort_run ob _ fuel (CSet r) (init_state g r)) as [s1| |] eqn:E; cbn [bind] in H; try discriminate.
-    eapply (leftover_preserves (fun s => vlen (st_gr s) = vlen g)); [exact HA|exact H|].
-    eapply (run_preserves (fun s => vlen (st_gr s) = vlen g)); [exact HA|apply HR|exact E|reflexivity].
-  - eapply (leftover_preserves (fun s => vlen (st_gr s) = vlen g)); [exact HA|exact H|reflexivity].
-Qed.
-
-(* Whenever the root is not block 0 - for every graph, every name list, every traversal - the
-   order handed to SetBlockOrder s_contains an index beyond the block count, and the scatter loop
-   stores outside its vector (Fault in the model, a heap overflow in the C++). *)
-Theorem shape_order_root_nonzero_faults fuel ob names g st r :
-  vlen g + vlen g < 4294967296 -> root_node g = Some r -> 0 < r ->
-  shape_order_indices fuel ob names g = Ok st ->
-  ~ is_perm (st_nidx st) (vlen g) /\ reorder_g (st_nidx st) (st_gr st) = Fault.
-Proof.
-  intros Hs Hr Hpos H.
-  assert (Hrn : r < vlen g).
-  { unfold root_node in Hr. destruct (indices_where (has_kind K_NODE) 0 g) as [|i l] eqn:Ei; [discriminate|].
-    inversion Hr; subst i. assert (Hin : In r (indices_where (has_kind K_NODE) 0 g)) by (rewrite Ei; left; reflexivity).
-    apply indices_where_spec in Hin. lia. }
-  destruct (shape_order_sinv fuel ob names g st r) as (HI & Hc); [lia|left; exact Hr|exact H|].
-  destruct (complete_shifted _ _ _ HI Hc ltac:(lia)) as (i & Hi & Hv).
-  pose proof (shape_order_len _ _ _ _ _ H) as Hlen.
-  destruct HI as [Hnl _ _ _ _].
-  split.
-  - intros (_ & Hall & _). rewrite Forall_forall in Hall. specialize (Hall _ (in_vget _ _ _ Hv)). lia.
-  - unfold reorder_g. rewrite Hnl, Hlen, N.eqb_refl. cbn [negb].
-    rewrite (scatter_fault (st_nidx st) (st_gr st) (vlen g)); [reflexivity|exact Hnl|exact Hlen| | |].
-    + unfold vlen. rewrite repeat_length. exact Hlen.
-    + unfold vlen in *. lia.
-    + exists i, (r + vlen g - 1). split; [lia|]. split; [exact Hv|lia].
-Qed.
-
-Corollary set_shape_order_root_nonzero_faults fuel names m r m' :
-  vlen (sm_g m) + vlen (sm_g m) < 4294967296 -> root_node (sm_g m) = Some r -> 0 < r ->
-  sm_unk m = false -> names <> [] -> vlen names = vlen (indices_where (has_kind K_SHAPE) 0 (sm_g m)) ->
-  set_shape_order fuel names m <> Ok m'.
-Proof.
-  intros Hs Hr Hpos Hu Hne Hcnt H. unfold set_shape_order in H. rewrite Hu in H.
-  destruct names as [|a l]; [contradiction|]. rewrite Hcnt, N.eqb_refl in H. cbn [negb] in H.
-  destruct (shape_order_indices fuel (sm_ob m) (a :: l) (sm_g m)) as [st| |] eqn:E; cbn [bind] in H; try discriminate.
-  destruct (shape_order_root_nonzero_faults _ _ _ _ _ _ Hs Hr Hpos E) as (_ & Hf). rewrite Hf in H. discriminate.
-Qed.
-
-(* ---- consistent header after SetShapeOrder under the forced hypotheses ---- *)
+(* ---- consistent header after applying a computed order ---- *)
 Theorem order_view h g0 st g' :
   Inv h -> blocks h = map to_block g0 ->
   is_perm (st_nidx st) (vlen g0) -> grel g0 (st_gr st) -> reorder_g (st_nidx st) (st_gr st) = Ok g' ->
@@ -175,7 +93,51 @@ Proof.
   - rewrite Er in Hr2. inversion Hr2; subst g2. exact Hb2.
 Qed.
 
-(* ---- witnesses outside the hypotheses ---- *)
+(* SetShapeOrder on any consistent model, any name list: either a guarded no-op, or the blocks are
+   permuted by a bijection, only child arrays were rebuilt, the header stays consistent and every
+   reference designates the same object *)
+Theorem set_shape_order_view fuel names m m' h :
+  Inv h -> blocks h = map to_block (sm_g m) -> refs_in_range (sm_g m) -> node_shape_excl (sm_g m) ->
+  set_shape_order fuel names m = Ok m' ->
+  m' = m \/
+  exists st h',
+    shape_order_indices fuel (sm_ob m) names (sm_g m) = Ok st /\
+    is_perm (st_nidx st) (vlen (sm_g m)) /\
+    grel (sm_g m) (st_gr st) /\
+    set_block_order (hdr_with h (st_gr st)) (st_nidx st) = Ok h' /\
+    Inv h' /\ blocks h' = map to_block (sm_g m') /\
+    (forall i o, vget (st_nidx st) i = Some o -> vget (view h') o = vget (view (hdr_with h (st_gr st))) i).
+Proof.
+  intros HI Hb Hr He H. unfold set_shape_order in H.
+  destruct (sm_unk m); [left; congruence|].
+  destruct names as [|a l]; [left; congruence|].
+  destruct (negb _); [left; congruence|].
+  destruct (shape_order_indices fuel (sm_ob m) (a :: l) (sm_g m)) as [st| |] eqn:Ep; cbn [bind] in H; try discriminate.
+  destruct (reorder_g (st_nidx st) (st_gr st)) as [g'| |] eqn:Er; cbn [bind] in H; try discriminate.
+  inversion H; subst m'. cbn [sm_g with_g]. right.
+  assert (Hsmall : vlen (sm_g m) < NPOS).
+  { destruct HI as [_ _ _ _ _ _ _ _ Hs]. rewrite Hb, vlen_map in Hs. exact Hs. }
+  pose proof (shape_order_perm _ _ _ _ _ Hsmall Ep) as Hperm.
+  pose proof (shape_order_children _ _ _ _ _ Hr He Ep) as HG.
+  destruct (order_view h _ st g' HI Hb Hperm HG Er) as (h' & H1 & H2 & H3 & H4).
+  exists st, h'. auto 10.
+Qed.
+
+(* whatever the traversal computed, SetBlockOrder gets a permutation and stores inside its vectors:
+   the positive counterpart of the heap overflow of the unrepaired code *)
+Theorem shape_order_apply_ok fuel ob names g st :
+  vlen g < NPOS -> refs_in_range g -> node_shape_excl g ->
+  shape_order_indices fuel ob names g = Ok st ->
+  exists g', reorder_g (st_nidx st) (st_gr st) = Ok g' /\ vlen g' = vlen g.
+Proof.
+  intros Hn Hr He Ep.
+  pose proof (shape_order_perm _ _ _ _ _ Hn Ep) as Hperm.
+  pose proof (shape_order_children _ _ _ _ _ Hr He Ep) as HG.
+  pose proof (grel_len _ _ HG) as Hl. rewrite <- Hl in Hperm.
+  destruct (reorder_g_spec _ _ Hperm) as (g' & E & Hlen & _). exists g'. split; [exact E|lia].
+Qed.
+
+(* ---- the models on which the unrepaired code failed ---- *)
 Definition blank (kind : N) (name : N) (children kpre : list N) : sblock :=
   mkSB 0 kind name kind [] NPOS [] NPOS children NPOS NPOS NPOS NPOS NPOS NPOS NPOS NPOS [] NPOS NPOS [] []
        [] [] NPOS NPOS kpre [] [] [].
@@ -186,3 +148,7 @@ Definition w_root1 : smodel := mkSM [blank 8 1 [] [NPOS; NPOS]; blank 2 0 [0] [N
 (* root in block 0 with two shape children named 1 and 2 *)
 Definition w_dup : smodel :=
   mkSM [blank 2 0 [1; 2] [NPOS; NPOS]; blank 8 1 [] [NPOS; NPOS]; blank 8 2 [] [NPOS; NPOS]] false false.
+
+(* a name that does not resolve, the other shape not a child of the root *)
+Definition w_missing : smodel :=
+  mkSM [blank 2 0 [1; 3] [NPOS; NPOS]; blank 8 1 [] [NPOS; NPOS]; blank 8 2 [] [NPOS; NPOS]; blank 2 0 [2] [NPOS; NPOS]] false false.
